@@ -363,3 +363,34 @@ func bareTypeName(t types.Type) string {
 	}
 	return typeStr(t)
 }
+
+// pkgOf: the package a function belongs to; for an instance of a generic function, that of the generic.
+func pkgOf(fn *ssa.Function) *ssa.Package {
+	if fn == nil {
+		return nil
+	}
+	if fn.Pkg != nil {
+		return fn.Pkg
+	}
+	if o := fn.Origin(); o != nil {
+		return o.Pkg
+	}
+	if p := fn.Parent(); p != nil {
+		return pkgOf(p)
+	}
+	return nil
+}
+
+// fnObject: the declared object of a function; for an instance of a generic function, that of the generic.
+func fnObject(fn *ssa.Function) types.Object {
+	if fn == nil {
+		return nil
+	}
+	if o := fn.Object(); o != nil {
+		return o
+	}
+	if o := fn.Origin(); o != nil {
+		return o.Object()
+	}
+	return nil
+}
